@@ -153,6 +153,8 @@ func PathData(maxNodes int) []any {
 		[]any{nil, i(1), nil, i(2)},
 		o("a", nil, "x", []any{nil, o("a", nil)}),
 		[]any{o("a", nil), o("x", nil), []any{nil}},
+		// the other literals
+		[]any{true, false, o("a", false), o("x", []any{true})},
 	)
 	return out
 }
